@@ -258,6 +258,21 @@ def _case_qcow2_snap(case, ctx):
         _cmp(ctx, d, f"snapshots[{n}].extra.icount", s.extra.icount, c)
         _cmp(ctx, d, f"snapshots[{n}].unknown_extra", s.unknown_extra, sd["extra"][24:] or None)
         _cmp(ctx, d, f"snapshots[{n}].header.l1_size", s.header.l1_size, 1)
+    # opening and reading the snapshot views is an observation: what the image object exposes stays what the file stores
+    def exposed():
+        h = q.header
+        return (q.size, h.size, h.l1_size, h.l1_table_offset, h.nb_snapshots, h.cluster_bits, h.version, q.cluster_size,
+                [(x.id_str, x.name, x.header.l1_size, x.header.l1_table_offset) for x in q.snapshots])
+
+    before = exposed()
+    for n, sn in enumerate(snaps):
+        v = sn.open()
+        v.seek(0)
+        v.read(700)
+        _cmp(ctx, d, f"image attributes after snapshots[{n}].open()", exposed(), before)
+        q.seek(0)
+        q.read(100)
+        _cmp(ctx, d, f"image attributes after reading the image again ({n})", exposed(), before)
     return d
 
 
